@@ -39,7 +39,41 @@ OPTS = [
 FIRSTS = [(None, False), ("div", False), ("div", True)]
 REPARSES = [(None, False), ("div", False), ("div", True), ("select", False), ("table", False), ("textarea", False)]
 # (first-parse mode, option vector, re-parse modes): the explored part of the cross product (1-based indices)
-PLAN = [(1, 1, [1, 2]), (2, 1, [1, 2, 3, 4, 5, 6]), (2, 2, [2]), (2, 3, [2]), (3, 1, [2, 3])]
+PLAN = [(1, 1, [1, 2]), (2, 1, [1, 2, 3, 4, 5, 6]), (2, 2, [2]), (2, 3, [2]), (3, 1, [2, 3]), (2, 1, [2])]
+FULL_PLAN = [1, 2, 3, 4, 5]
+LIGHT_PLAN = [6, 3, 4]          # fragment(div) -> every VALUE of quote_attr_values -> fragment(div)
+
+# attribute-value explorations: the explored string is  pre + fragments + post
+# (a) every spelling of a character reference IN THE TREE VALUE (the source carries &amp;...) behind a forbidden scheme name
+REFS = ["&amp;#58", "&amp;#x3A", "&amp;#058;", "&amp;#X3a;", "&amp;colon", "&amp;colon;", "&amp;Tab;", "&amp;", ";", "x", "1", "=", " "]
+REFS_PRE, REFS_POST = '<a href="javascript', 'alert(1)">'
+# (b) long values: lengths n-1, n, n+1 around every integer literal of the serializer / sanitizer sources of the tree under
+# test (harness/literals.py) and around 64, 256, 1024, with the character that forces quoting only in the tail
+TAILS = [" onmouseover=y", "=y", "&quot;y", "'y", ">y", "`", "\ty"]
+LONG_PRE, LONG_POST = '<p title="', '">x'
+SIZE_SOURCES = ("html5lib/serializer.py", "html5lib/filters/sanitizer.py")
+
+
+def value_sizes(cap=4200, extra=(64, 256, 1024, 4096)):
+    from . import literals
+    return [n for n in literals.sizes(*SIZE_SOURCES, extra=extra, cap=cap) if n >= 32]
+
+
+MC_SIZE_CAP = 600       # the model-level exploration of long values stops here (the recorded traces go to 4097)
+MC_TAILS = [" onmouseover=y", "=y", ">y"]
+
+
+def run_entry(alphas, lists="default", pre="", post="", plan=None):
+    """one exploration of MC_Mxss: fragment k is drawn from alphabet alphas[k]"""
+    return {"alphas": list(alphas), "lists": lists, "pre": enc(pre), "post": enc(post), "plan": list(plan or FULL_PLAN)}
+
+
+def std_run(alphabet, depth, lists):
+    return run_entry([alphabet] * depth, lists)
+
+
+REFS_RUN = run_entry(["refs", "refs"], "default", REFS_PRE, REFS_POST, LIGHT_PLAN)
+LONG_RUN = run_entry(["pads", "tails"], "default", LONG_PRE, LONG_POST, LIGHT_PLAN)
 
 # allow-list configurations: "default" = what HTMLSerializer(sanitize=True) uses; "extended" = the default lists plus
 # elements that html5lib's serializer writes as raw text by their bare name (an application that allows them)
@@ -107,7 +141,7 @@ def _mc_keys():
     """every element / attribute key the MC alphabet can produce (generously: all names of the alphabet in all namespaces)"""
     import re
     names, attrs = set(["html", "head", "body", "tbody", "tr", "colgroup", "img", "br", "p"]), set()
-    for f in ALL + CORE + DEEP:
+    for f in ALL + CORE + DEEP + [REFS_PRE, LONG_PRE + "x onmouseover=y>"]:
         for m in re.finditer(r"</?([A-Za-z][A-Za-z0-9-]*)((?:\s+[^\s>=]+(?:=[^\s>]*)?)*)", f):
             names.add(m.group(1))
             names.add(m.group(1).lower())
@@ -130,8 +164,9 @@ def write_cfg(path, runs=()):
     lists = {}
     for nm in ("default", "extended"):
         lists[nm] = project_lists(filter_lists(filter_kwargs(nm)), elkeys, atkeys, names, "")
-    cfg = {"alphabets": {"all": [enc(f) for f in ALL], "core": [enc(f) for f in CORE], "deep": [enc(f) for f in DEEP]},
-           "lists": lists, "opts": OPTS, "runs": [{"alphabet": a, "depth": d, "lists": l} for a, d, l in runs],
+    cfg = {"alphabets": {"all": [enc(f) for f in ALL], "core": [enc(f) for f in CORE], "deep": [enc(f) for f in DEEP],
+                         "refs": [enc(f) for f in REFS], "pads": [enc("A" * n) for n in value_sizes(MC_SIZE_CAP, (64, 256))], "tails": [enc(f) for f in MC_TAILS]},
+           "lists": lists, "opts": OPTS, "runs": list(runs),
            "firsts": [{"cx": enc(c), "scr": s} for c, s in FIRSTS],
            "reparses": [{"cx": enc(c), "scr": s} for c, s in REPARSES],
            "plan": [{"f": f, "o": o, "rs": rs} for f, o, rs in PLAN]}
